@@ -92,8 +92,9 @@ CLAIMED.update({
                 "latch W, counters, faults; also with caches in C07/C11), and the property is evaluated on the implementation directly: "
                 "five-stage vs single-cycle exhaustively over all sequences up to length 3 (quick) / 4 (thorough) of an 18-instruction "
                 "hazard-complete alphabet x 2 presets, and on random programs incl. wrapping jalr targets, faults, ecall drains, caches.",
-        "note": NOTE_COMMON + "The refinement theorem is stated for flat memory and no instruction cache (with caches the two modes are "
-                "compared differentially; cache transparency is C03/C11). CSR/FENCE/EBREAK excluded as the property says.",
+        "note": NOTE_COMMON + "Props/C02Caches.v (pipe_refines_single_caches) lifts the theorem to every data-cache and instruction-cache "
+                "configuration (agreement of registers, output, exit code, counters, logical memory, retire order; a cache rejection "
+                "of a word-crossing access is raised identically by both machines). CSR/FENCE/EBREAK excluded as the property says.",
         "technique": "Coq refinement proof (stuttering simulation five-stage -> single-cycle) + model correspondence + exhaustive small-scope mode comparison",
     },
     "C03": {
@@ -107,7 +108,9 @@ CLAIMED.update({
                 "block directory, replacement state, counters and lower memory after every operation of random histories (explicit-state "
                 "enumeration on tiny geometries in the thorough tier); the implementation is also compared directly with a flat "
                 "reference store, and whole programs are run with the cache on and off in both modes.",
-        "note": NOTE_COMMON + "Program-level corollary (cached run = flat run) is checked differentially, not proved; block_bits <= 12 assumed.",
+        "note": NOTE_COMMON + "Program level: Props/C03Programs.v proves that single-cycle and five-stage runs with any data cache and any "
+                "instruction cache agree with the run on flat memory (registers, pc, output, exit code, counters, logical memory, latches, "
+                "retire trace) up to the first access the cache rejects (single_run_lifts, pipe_run_lifts, program_cache_on_off_*); block_bits <= 12 assumed.",
         "technique": TECH,
     },
     "C12": {
@@ -143,36 +146,47 @@ CLAIMED.update({
                 "code inside whole-program runs of both modes (registers, memory, output, pc, instruction-cache counters and cycles after "
                 "every step); directly: results with and without the cache, counters against a reference cache fed the fetch addresses, "
                 "one fetch per executed instruction in single-cycle mode, and no stale block or counter after load_program.",
-        "note": NOTE_COMMON + "That program results are independent of the instruction cache is checked differentially (the proof covers fetch transparency).",
+        "note": NOTE_COMMON + "Program level: Props/C11Programs.v proves that with any instruction cache both modes produce the identical "
+                "outcome (run end incl. fault record, architectural state, latches and retire trace) as without (icache_program_single/pipe).",
         "technique": TECH,
     },
 })
 CLAIMED.update({
     "C07": {
-        "text": "Proof (partial). Proved about the modelled pipeline for every state (Props/C07.v): the cycle law (each step advances the "
-                "cycle counter by exactly 1 + data-cache penalty x counted data misses + instruction-cache penalty x fetch misses, "
-                "faulting steps included), a reachable-shape invariant (stall register, skid registers, flag placement, no "
-                "instruction-bubble-instruction patterns), the flush law (control transfers resolved in MEM redirect the next fetch and "
-                "clear IF/ID/EX), the interlock law (a decode hazard gives exactly two stalled cycles in which nothing enters EX), ecall "
-                "drain laws, write-before-read in a cycle, retirement iff MEM latch occupied, and the n+4 law for straight-line "
-                "independent ALU programs (straightline_n_plus_4_partial: ALU classes only). NOT proved: that retire times follow the "
-                "schedule recurrence for arbitrary programs (needs the C02 control-path invariant). That clause is decided on everything "
-                "explored by comparing the implementation with the recurrence evaluated on its own single-cycle trace (exhaustive over "
-                "the hazard alphabet up to length 3/4, random programs), by the cycle law on the implementation with caches, and by "
-                "cycle-by-cycle correspondence of cycles/stalls/flushes with the model.",
-        "note": NOTE_COMMON + "retire_times_match_schedule is not a closed theorem; the Shape invariant is instantiated for runs without instruction cache.",
-        "technique": "Coq proofs of pipeline laws (cycle law, stall/flush laws, n+4 for ALU programs) + implementation vs schedule recurrence, exhaustive small scope + random",
+        "text": "Props/C07Sched.v proves the schedule clause in full for the modelled pipeline (flat memory, no instruction cache): pipe_schedule "
+                "— for EVERY program of supported instructions, every well-formed initial state and every n, if the single-cycle run "
+                "finishes, the pipeline run ends after exactly total_cycles(schedule(events)) steps and the list of (retired pc, cycle "
+                "index) equals the documented recurrence evaluated on the single-cycle dynamic instruction stream (the recurrence is the "
+                "literal transcription of harness/sched.py: fetch each cycle, decode interlock +2 on a source written by one of the two "
+                "preceding instructions, redirect after MEM, ecall held in EX while an older instruction is in MEM/WB); closed forms "
+                "(schedule_gap, schedule_total, pipe_cycle_count: n + 4 + 3 per control transfer followed by an instruction + 2 per "
+                "interlock/drain stall), straightline_cycles and straightline_n_plus_4 (all straight-line instruction kinds, dependencies "
+                "at distance >= 3 allowed). Props/C07.v proves for every state and every memory system the cycle law (each step advances "
+                "the cycle counter by exactly 1 + data-cache penalty x counted data misses + instruction-cache penalty x fetch misses, "
+                "faulting steps included) and the local flush / interlock / drain laws and the Shape invariant. Tied to the code by "
+                "cycle-by-cycle correspondence of cycles/stalls/flushes/latches with the model (with caches), and decided on the "
+                "implementation directly: retire cycles vs the recurrence on the implementation's own single-cycle trace (exhaustive "
+                "hazard alphabet up to length 3/4 + random programs), the cycle law with caches, n+4.",
+        "note": NOTE_COMMON + "pipe_schedule is stated for flat memory without instruction cache; with caches the step count is the same "
+                "(Props/C03Programs.v: latches equal) and the cycle counter adds the penalties by the cycle law.",
+        "technique": "Coq proof of the retire schedule (timing invariant on top of the refinement invariant) and of the cycle law + implementation vs schedule recurrence, exhaustive small scope + random",
     },
     "C08": {
-        "text": "Proof (partial). Proved about the modelled pipeline (Props/C08.v): with hazard detection off the decode stage never raises "
-                "a stall signal in any state, on reachable states only an ecall drain can stall, the flag never changes, and the operands "
-                "latched by decode are read from the register file after the same cycle's write-back (so they are exactly the writes "
-                "of instructions that have completed write-back). NOT proved: the refinement to the delayed-write-back interpreter and "
-                "the distance-3 corollary for whole programs. Those are decided on everything explored by comparing the implementation "
-                "(flag off) with a delayed-write-back reference interpreter (retire order and cycles, registers, memory, output), by "
-                "nop-padded programs against single-cycle mode, and by cycle-by-cycle correspondence with the model.",
-        "note": NOTE_COMMON + "nohaz_refines_delayedwb and distance3_refines_single are stated in DESIGN.md but not closed.",
-        "technique": "Coq proofs of the interlock-free laws + implementation vs delayed-write-back reference interpreter and padded programs",
+        "text": "Props/C08DelayedWB.v proves for the modelled pipeline with hazard detection OFF (flat memory, no instruction cache): "
+                "flagoff_refines_single — every supported program whose register dependencies are at least three instructions apart "
+                "(dep_free, a decidable static predicate; dep_free_weak without the a7/a0 clause suffices) gives exactly the single-cycle "
+                "result (same statement as pipe_refines_single: final state, retire order, faults, bound); flagoff_lockstep — on such "
+                "programs the flag-off pipeline runs cycle by cycle like the hazard-detecting one (whole state incl. counters); "
+                "dep_free_pad2 — two nops behind every instruction make ANY program dependency-free; and the general characterisation "
+                "flagoff_is_dwb_noecall_partial — for every supported program WITHOUT ecall and no dependency hypothesis the flag-off "
+                "pipeline equals the delayed-write-back reference machine dwb_run (operands from the register file two slots ago, three "
+                "bubbles after a redirect), incl. stale reads, faults, wrong-path slots. Props/C08.v: no decode stall is ever raised with "
+                "the flag off, reads happen after the same cycle's write-back, the flag never changes. NOT proved: the delayed-write-back "
+                "characterisation for programs with ecall (checked by closed computation on examples and differentially). Tied to the code "
+                "by cycle-by-cycle correspondence (flag off) and decided on the implementation against the delayed-write-back reference "
+                "interpreter (retire order and cycles, registers, memory, output), nop-padded programs vs single-cycle mode, no ID stall.",
+        "note": NOTE_COMMON + "flagoff_is_dwb (with ecall) is stated in Props/C08DelayedWB.v but only its ecall-free part is closed.",
+        "technique": "Coq refinement proofs (lock step with the interlocked pipeline on dependency-free programs; delayed-write-back machine for ecall-free programs) + implementation vs delayed-write-back reference interpreter",
     },
     "C13": {
         "text": "Props/C13.v proves for the single-cycle, five-stage and TOY models, for ALL states: done is stable (step and run return the "
